@@ -840,11 +840,19 @@ def replay_program(build, shim, contract, inputs, sanitize=False, rel_build=None
     L.append('}')
     if getattr(contract, 'rel', None) and rel_build is not None:
         L += rel_wrappers({n: rel_build.driver.shims[n].view_sig() for n in contract.rel[1]}, cxx=True)
-    L.append('int main(){')
+    L.append('#include <cstdlib>')
+    L.append('int main(int argc, char** argv){')
     args = []
-    for (t, n), cppt in zip(s['ins'], s['cpp_ins']):
+    for k, ((t, n), cppt) in enumerate(zip(s['ins'], s['cpp_ins'])):
         v = inputs.get(n, 0)
         L.append('  %s %s = %s;' % (t, n, lit(t, v)))
+        # optional override from the command line (bit pattern, hex): used by the native refuter
+        if t == 'float':
+            L.append('  if (argc > %d) %s = ll2c_bits_f32((u32)strtoull(argv[%d], 0, 16));' % (k + 1, n, k + 1))
+        elif t == 'double':
+            L.append('  if (argc > %d) %s = ll2c_bits_f64((u64)strtoull(argv[%d], 0, 16));' % (k + 1, n, k + 1))
+        else:
+            L.append('  if (argc > %d) %s = (%s)strtoull(argv[%d], 0, 16);' % (k + 1, n, t, k + 1))
         if t in ('float', 'double'):
             args.append(n)
         else:
@@ -892,7 +900,9 @@ def run_replay(build, shim, contract, inputs, workdir, tag, sanitize=False, rel_
         ren = ''.join('#define %s R_%s\n' % (n, n) for n in contract.rel[1])
         open(src2, 'w').write('#define SHIM extern "C"\n' + ren + rel_build.driver.source(rel_build.defines, only=list(contract.rel[1])))
         o2 = src2[:-4] + '.o'
-        f2 = [f for f in flags if not f.startswith('-D')] + ['-D' + d for d in rel_build.defines] + rel_build.flags
+        # the counterpart is a second configuration of the same inline templates: keep its symbols apart (namespace glm -> glm_rel),
+        # otherwise the linker merges the two definitions of every glm:: function (ODR) and both sides run the same code
+        f2 = [f for f in flags if not f.startswith('-D')] + ['-D' + d for d in rel_build.defines] + rel_build.flags + ['-Dglm=glm_rel']
         rc, so, se, dt = sh([cc] + f2 + ['-I' + REPO, '-c', src2, '-o', o2], timeout=600, mem_gb=16)
         if rc != 0:
             return {'ok': False, 'error': 'replay build (rel) failed: ' + se[-1500:], 'out': ''}
@@ -906,7 +916,26 @@ def run_replay(build, shim, contract, inputs, workdir, tag, sanitize=False, rel_
         res['clauses'][m.group(1)] = m.group(2)
     if 'NOT-SATISFIED' in so:
         res['pre'] = False
+    res['exe'] = exe
     return res
+
+
+def native_refuter(exe, shim, clause, seed=0, tries=400):
+    """the verifier refuted `clause` but its counterexample does not reproduce (typically because it lives in an uninterpreted
+    function): search boundary + random inputs natively for one that breaches the clause on the real code.  A hit is a genuine
+    counterexample; a miss proves nothing."""
+    s = shim.view_sig()
+    rnd = random.Random(seed + 12345)
+    cols = [([rnd.randint(0, 1) for _ in range(tries)] if cppt == 'bool' else gen_inputs(t, rnd, tries)) for (t, _), cppt in zip(s['ins'], s['cpp_ins'])]
+    for k in range(tries):
+        argv = ['%x' % c[k] for c in cols]
+        rc, so, se, dt = sh([exe] + argv, timeout=20)
+        if 'NOT-SATISFIED' in so:
+            continue
+        m = re.search(r'ENSURES %s (HOLDS|BREACHED)' % re.escape(clause), so)
+        if m and m.group(1) == 'BREACHED':
+            return {n: c[k] for (t, n), c in zip(s['ins'], cols)}, so
+    return None, ''
 
 
 # =====================================================================================
